@@ -38,9 +38,9 @@ func VerifC10HandlerError() {
 	if ct != "" {
 		r.Header["Content-Type"] = []string{ct}
 	}
-	msg := verif.String("err.message", 4)
-	fld, desc := verif.String("violation.field", 4), verif.String("violation.description", 4)
-	rt, rid := verif.String("nf.type", 3), verif.String("nf.id", 3)
+	msg := verif.String("err.message", verif.L(4))
+	fld, desc := verif.String("violation.field", verif.L(4)), verif.String("violation.description", verif.L(4))
+	rt, rid := verif.String("nf.type", verif.L(3)), verif.String("nf.id", verif.L(3))
 	var herr error
 	src := verif.Choice("errorSource", 6)
 	isValidation, isCustom := false, false
